@@ -1,8 +1,11 @@
 #!/usr/bin/env python3
 """usage: mkbenignprompt.py <property-id> <worktree> -> prompt for a fresh sub-agent that makes a
 realistic BEHAVIOUR-PRESERVING change (used to look for false alarms of the checks)."""
-import json, sys
+import json, sys, glob
 pid, wt = sys.argv[1], sys.argv[2]
+have = []
+for m in sorted(glob.glob('/verif/benign/benign-%s*/meta.json' % pid)):
+    have.append('- ' + json.load(open(m))['what'])
 prop = None
 for l in open('/verif/properties.jsonl'):
     p = json.loads(l)
@@ -16,6 +19,9 @@ The property (id {pid}): {prop['title']}
 Statement: {prop['statement']}
 Quantified over: {prop['quantifier']['text']}
 Code it is anchored in: {', '.join(prop['anchors']['files'])}
+
+Behaviour-preserving changes already made for this property in an earlier round (make a DIFFERENT one - another function, another kind of restructuring):
+{chr(10).join(have) if have else '- none'}
 
 Requirements:
 1. The change must be substantial enough to matter (10-60 changed lines), touch the anchored code paths, and must NOT change any behaviour the property (or any other reasonable user expectation documented in README.md) talks about: same results, same errors-vs-values, same ordering of returned node-sets, same document order positions, no new data races, no mutation of caller-owned data. Internal details a caller cannot observe (allocation patterns, unexported names, internal caches that are correctly synchronised and keyed, texts of error messages) may change.
